@@ -211,4 +211,15 @@ theorem batch_flags_eq (c : Cfg) (dec : FlapDecide) :
       simp only [batchFlags, specBatchFlags, List.isEmpty_cons, Bool.false_eq_true, if_false]
       rw [ih _ _ hstep, hstep.flap]
 
+/-- ring and flap flag after `restoreEventState`: one `addEvent` on a new state -/
+theorem restore_frel (c : Cfg) (h1 : 1 ≤ c.history) (dec : FlapDecide) (t : Int) (level : Nat) (stored dur : Int) (hl : level ≠ 0) :
+    FRel c (restoreEventState c (ringFlap 2 dec) t level stored dur) (flapAdvance c dec {} level) := by
+  have hA := addEvent_frel c dec (newAlertState c) {} t level (frel_init c h1)
+  apply frel_of_sameRing c _ _ _ _ hA
+  unfold restoreEventState
+  have : (level != 0) = true := by simpa using hl
+  simp only [this, if_true]
+  obtain ⟨a, b, d, _, _⟩ := triggered_facts (addEvent c (ringFlap 2 dec) (newAlertState c) t level) stored
+  exact ⟨a, b, d⟩
+
 end Kap.C01
